@@ -2,6 +2,7 @@ package main
 
 import (
 	"fmt"
+	"go/constant"
 	"go/token"
 	"go/types"
 	"sort"
@@ -788,6 +789,7 @@ func (w *World) nameTestGuards(P string, f *Facts, r *Roles) {
 		sites := w.keepSites(h.Fn, r)
 		// where the strings that reach parameters of the functions involved come from (callers first)
 		params := map[*ssa.Parameter]string{}
+		boolParams := map[*ssa.Parameter]bool{}
 		scopeFns := map[*ssa.Function]bool{h.Fn: true}
 		for _, ks := range sites {
 			for _, g := range ks.Fns {
@@ -814,6 +816,12 @@ func (w *World) nameTestGuards(P string, f *Facts, r *Roles) {
 								params[callee.Params[i]] = o
 							}
 						}
+						// a flag that selects a variant of a shared helper (`anyLocal`), bound to a constant here
+						if i < len(callee.Params) {
+							if k, isK := arg.(*ssa.Const); isK && k.Value != nil && k.Value.Kind() == constant.Bool {
+								boolParams[callee.Params[i]] = constant.BoolVal(k.Value)
+							}
+						}
 					}
 				})
 			}
@@ -828,7 +836,12 @@ func (w *World) nameTestGuards(P string, f *Facts, r *Roles) {
 			gotSpace, gotLocal := "", ""
 			nsArm := false
 			bad := ""
-			for _, at := range ks.Atoms {
+			atoms := ks.Atoms
+			if len(boolParams) > 0 {
+				// conditions that guard the append once the branches on constant-bound flags are decided
+				atoms = append(append([]atom{}, atoms...), prunedGuards(ks.Append.Block(), boolParams)...)
+			}
+			for _, at := range atoms {
 				if ex, ok := at.V.(*ssa.Extract); ok && ex.Index == 1 && at.Pol {
 					if ta, ok := ex.Tuple.(*ssa.TypeAssert); ok {
 						if n, _ := nodeIface(ta.AssertedType); n != nil && n.Obj().Name() == "Namespace" {
@@ -837,6 +850,30 @@ func (w *World) nameTestGuards(P string, f *Facts, r *Roles) {
 					}
 				}
 				bo, ok := at.V.(*ssa.BinOp)
+				if phi, isPhi := at.V.(*ssa.Phi); isPhi && at.Pol && len(phi.Edges) == 2 {
+					// `flag || cmp`: with the flag bound to false for this production the condition is cmp
+					for i, e := range phi.Edges {
+						k, isK := e.(*ssa.Const)
+						if !isK || k.Value == nil || k.Value.Kind() != constant.Bool || !constant.BoolVal(k.Value) {
+							continue
+						}
+						pb := phi.Block().Preds[i]
+						if len(pb.Instrs) == 0 {
+							continue
+						}
+						iff, isIf := pb.Instrs[len(pb.Instrs)-1].(*ssa.If)
+						if !isIf {
+							continue
+						}
+						if prm, isP := iff.Cond.(*ssa.Parameter); isP {
+							if val, known := boolParams[prm]; known && !val {
+								if b2, isB := phi.Edges[1-i].(*ssa.BinOp); isB {
+									bo, ok = b2, true
+								}
+							}
+						}
+					}
+				}
 				if !ok {
 					continue
 				}
@@ -1524,4 +1561,87 @@ func (w *World) mergedFunctionTable(lk *ssa.Lookup) (ok bool, why string, decide
 		}
 	}
 	return true, "the merged table is filled with the builtins first and the query's FunctionLibrary second (or builtins only into free slots): the user's function wins", true
+}
+
+// prunedGuards: the branch conditions every path from the function's entry to b passes with one polarity, when the
+// branches on the given boolean parameters are taken as the constants say (edges that cannot be taken are removed).
+func prunedGuards(b *ssa.BasicBlock, consts map[*ssa.Parameter]bool) []atom {
+	fn := b.Parent()
+	type edge struct{ from, to *ssa.BasicBlock }
+	dead := map[edge]bool{}
+	for _, blk := range fn.Blocks {
+		if len(blk.Instrs) == 0 {
+			continue
+		}
+		iff, ok := blk.Instrs[len(blk.Instrs)-1].(*ssa.If)
+		if !ok {
+			continue
+		}
+		cond, pol := iff.Cond, true
+		if u, isU := cond.(*ssa.UnOp); isU && u.Op == token.NOT {
+			cond, pol = u.X, false
+		}
+		p, isP := cond.(*ssa.Parameter)
+		if !isP {
+			continue
+		}
+		val, known := consts[p]
+		if !known {
+			continue
+		}
+		if val == pol {
+			dead[edge{blk, blk.Succs[1]}] = true
+		} else {
+			dead[edge{blk, blk.Succs[0]}] = true
+		}
+	}
+	if len(dead) == 0 {
+		return nil
+	}
+	reach := func(extra edge) bool {
+		seen := map[*ssa.BasicBlock]bool{}
+		stack := []*ssa.BasicBlock{fn.Blocks[0]}
+		for len(stack) > 0 {
+			x := stack[len(stack)-1]
+			stack = stack[:len(stack)-1]
+			if x == b {
+				return true
+			}
+			if seen[x] {
+				continue
+			}
+			seen[x] = true
+			for _, s := range x.Succs {
+				e := edge{x, s}
+				if dead[e] || e == extra {
+					continue
+				}
+				stack = append(stack, s)
+			}
+		}
+		return false
+	}
+	if !reach(edge{}) {
+		return nil
+	}
+	var out []atom
+	for _, blk := range fn.Blocks {
+		if len(blk.Instrs) == 0 || len(blk.Succs) != 2 || blk.Succs[0] == blk.Succs[1] {
+			continue
+		}
+		iff, ok := blk.Instrs[len(blk.Instrs)-1].(*ssa.If)
+		if !ok {
+			continue
+		}
+		if _, isP := iff.Cond.(*ssa.Parameter); isP {
+			continue
+		}
+		// without the true edge b cannot be reached: every path takes the true edge (and likewise for the false edge)
+		if !reach(edge{blk, blk.Succs[0]}) {
+			out = append(out, atom{V: iff.Cond, Pol: true})
+		} else if !reach(edge{blk, blk.Succs[1]}) {
+			out = append(out, atom{V: iff.Cond, Pol: false})
+		}
+	}
+	return out
 }
